@@ -325,7 +325,7 @@ func C18() int {
 	c.Set("combinations", N)
 	c.Set("rule_table_counts", ruleCounts)
 	c.Set("outcomes", outcomes)
-	c.Set("race_reports", s.RaceReports())
+	raceVerdict(s, c)
 	c.Set("exhaustive", true)
 	if c.Evals() < N {
 		c.Inconclusive("not all 8192 combinations ran")
